@@ -23,6 +23,9 @@ structure VSchema where
   base : Schema
   dirs : List DirDef
   inputs : List InputDef
+  /-- names of the object types registered with `is_subscription: true` (C09: the flag by which
+      `visit_selection` recognises a subscription root; it never looks at `subscription_type`) -/
+  subFlag : List String := []
   deriving Repr, Inhabited
 
 end AGV.Core
